@@ -22,7 +22,7 @@ func runC08(w *World) {
 	mode := w.Draw(8, "mode") // 0..4 header fault, 5 positive boundary, 6,7 fidelity
 	var wantNotif *corebgp.Notification
 	fidelityAt := -1
-	s := NewStd1(w, Std1Opts{Dir: dir, Passive: dir == DirIn && w.Draw(2, "passive") == 1, LocalHold: 90, RemoteHold: 90,
+	s := NewStd1(w, Std1Opts{Dir: dir, Passive: dir == DirIn && w.Draw(2, "passive") == 1, LocalHold: 90, RemoteHold: 90, Vary: true,
 		Configure: func(p *PeerH) {
 			if mode >= 6 {
 				dl := Pick(w, "datalen", 0, 1, 2, 3, 255, 1000, 4075, -1)
